@@ -21,7 +21,6 @@ import (
 	"io"
 	"os"
 	"path/filepath"
-	"sort"
 	"strings"
 
 	"github.com/pdfcpu/pdfcpu/pkg/api"
@@ -109,8 +108,6 @@ func withPattern(base int32, pat int) int32 {
 	return int32(v)
 }
 
-var reported = map[string]bool{}
-
 // fail records an oracle failure; at most 25 inputs per class are written out (vh keeps 2000 in total,
 // one flooding class must not hide the others), the rest is only counted.
 var perClass = map[string]int{}
@@ -137,6 +134,23 @@ func main() {
 		modes = append(modes, m)
 	}
 	modes = append(modes, 1000, -1000)
+
+	// Observation for the evidence (first, so that it is among the samples kept): command modes whose kind
+	// (tables.go / Spec.v) asks for a right but that proceed on a document denying everything.
+	var unclassified []string
+	pn := model.PermissionsNone
+	pNone := int(int16(pn))
+	for _, m := range modes {
+		row, inTable := table[m]
+		k := kindOf(m)
+		if specMustRefuse(k, pNone, 4) && pdfcpu.VerifC26HasNeededPermissions(m, pNone, 4) && !rejectsEncrypted[m] && !rowSatisfies(k, inTable, row) {
+			unclassified = append(unclassified, name(m))
+		}
+	}
+	r.Sample(map[string]any{
+		"observation": "command modes that change the document or derive documents from its content but have no (sufficient) row in crypto.go:perm: with the user password only they proceed on a document whose P denies the right (e.g. api.Resize on a PermissionsNone document). Outside the fixed statement of C26 (it quantifies over the commands pdfcpu classifies), therefore not an oracle failure; documented by C26_every_mode_classified_partial / _refuted / C26_known_unclassified_are_gaps. Counters: observation:unclassified-mode[-e2e]:<MODE>.",
+		"modes":       unclassified,
+	})
 
 	partA(r, table, modes)
 	partB(r, table)
@@ -204,7 +218,6 @@ func oracleA(r *vh.Run, m model.CommandMode, inTable bool, row [2]int, p, rev in
 	if specMustRefuse(k, p, rev) && allowed && !rejectsEncrypted[m] && !rowSatisfies(k, inTable, row) {
 		// OBSERVATION, not a violation: the fixed statement of C26 quantifies over the commands pdfcpu
 		// classifies; an unclassified command is outside it (see C26_every_mode_classified_* in Property.v).
-		reported[fmt.Sprintf("function-level/%s/R=%d", name(m), rev)] = true
 		r.Count("observation:unclassified-mode:" + name(m))
 	}
 	if ok {
@@ -576,16 +589,6 @@ func partB(r *vh.Run, table map[model.CommandMode][2]int) {
 			}
 		}
 	}
-	// make the gap summary visible in the evidence
-	var keys []string
-	for k := range reported {
-		keys = append(keys, k)
-	}
-	sort.Strings(keys)
-	r.Sample(map[string]any{
-		"observation": "command modes that change the document or derive documents from its content but have no (sufficient) row in crypto.go:perm: with the user password only they proceed on a document whose P denies the right (e.g. api.Resize on a PermissionsNone document). Outside the fixed statement of C26 (it quantifies over classified commands), therefore not an oracle failure; documented by C26_every_mode_classified_partial / _refuted / C26_known_unclassified_are_gaps.",
-		"witnesses":   keys,
-	})
 }
 
 func oracleB(r *vh.Run, table map[model.CommandMode][2]int, doc string, cfg encCfg, o op, cr cred, p, rev int, got string) {
@@ -619,7 +622,6 @@ func oracleB(r *vh.Run, table map[model.CommandMode][2]int, doc string, cfg encC
 		}
 		if specMustRefuse(kindOf(o.mode), p, rev) && got == "ok" && !rowSatisfies(kindOf(o.mode), inTable, row) {
 			// OBSERVATION only (see oracleA)
-			reported[fmt.Sprintf("api.%s/%s/R=%d", o.name, name(o.mode), rev)] = true
 			r.Count("observation:unclassified-mode-e2e:" + name(o.mode))
 		}
 	}
